@@ -41,6 +41,8 @@ def run_session(cfg, ctx, nreq, fp=True):
     letters = letters_for(tr)
     peer = WatchPeer(tr, T, ctx, letters, ['ok'])
     peer.max_open = 0
+    if tr == 'udp':
+        peer.udp_conn_letters = ['ok', 'netunreach']
     kern = Kernel(peer, ctx=ctx)
     loop = KLoop(kern=kern)
     if cfg.get('neighbour'):
@@ -175,7 +177,8 @@ def monitors(cfg, obs_list):
                 last, bound = t, (5.0 if e[0] == 'connect' else T)
         if o.t1 > last + bound + TOL:
             out.append(('C04', 'completes<=last+T', f'done {o.t1:.6f}, last event {last:.6f}', i))
-        quiet = not o.rx and o.clean_start     # nothing at all was received during this request
+        connfail = any(e[0] == 'connect' and e[1] != 'ok' for e in o.events)      # a socket could not be connected
+        quiet = not o.rx and o.clean_start and not connfail    # nothing at all was received during this request
         ts = [t for t, _, _ in o.txs]
         if all(x == 'drop' for x in o.letters) and quiet and o.letters:
             bad = None
@@ -193,7 +196,7 @@ def monitors(cfg, obs_list):
                     out.append(('C05', 'silent-request:R+1-spaced-T', bad, i))
         # an attempt during which nothing at all came back lasts exactly one timeout - not less (C05: every request gets
         # the full timeout, whatever happened to earlier requests), not more (C04)
-        if o.clean_start and res[0] != 'hang':
+        if o.clean_start and res[0] != 'hang' and not connfail:
             rxt = [e[2] for e in o.events if e[0] == 'rx']
             for k in range(n):
                 if o.letters[k] != 'drop':
@@ -250,6 +253,12 @@ def monitors(cfg, obs_list):
     return out
 
 
+def _labels(cfg, choices, nreq):
+    c = Ctx(choices)
+    run_session(cfg, c, nreq, fp=False)
+    return [list(x) for x in c.labels]
+
+
 def _job(j):
     cfg, nreq, devs, props = j[:4]
     root = tuple(j[4]) if len(j) > 4 else ()
@@ -285,7 +294,7 @@ def _job(j):
         if not again:
             key += '/order-dependent'
         out.append(dict(prop=prop, key=key, clause=clause, n=len(lst),
-                        replay=dict(part='session', cfg=cfg, nreq=nreq, choices=list(choices)),
+                        replay=dict(part='session', cfg=cfg, nreq=nreq, choices=list(choices), labels=_labels(cfg, choices, nreq)),
                         detail=dict(cause=cause, request_index=i, scripts=scripts,
                                     results=[str(o.result[:3])[:80] for o in obs])))
     st.violations = out
@@ -321,7 +330,9 @@ def explore_sessions(tier, seed, props, light=False):
     split = []
     for j in jobs:
         if j[2] >= 3:
-            nl = len(letters_for(j[0]['transport']))
+            probe = Ctx([])
+            run_session(j[0], probe, j[1], fp=False)
+            nl = probe.trace[0][1]        # number of options at the very first choice point of this configuration
             split += [j + ((i,),) for i in range(nl)]
         else:
             split.append(j)
@@ -335,6 +346,8 @@ def explore_sessions(tier, seed, props, light=False):
 
 
 def replay(r):
-    obs = run_session(r['cfg'], Ctx(r['choices']), r['nreq'], fp=False)
+    from .explore import LabelCtx
+    ctx = LabelCtx([tuple(x) for x in r['labels']]) if r.get('labels') else Ctx(r['choices'])
+    obs = run_session(r['cfg'], ctx, r['nreq'], fp=False)
     return dict(requests=[dict(script=o.letters, result=str(o.result[:3])[:100], tx=[t for t, _, _ in o.txs], done=o.t1) for o in obs],
                 violations=[m for m in monitors(r['cfg'], obs)])
